@@ -173,6 +173,8 @@ def run(index, rep, tier):
     rep.rule("R14.1", "unit discipline: in the distance-matrix classes no sum mixes a path length with a step count or a bare integer, every field/table holds one unit, the length accessor reads the length table and normalises by the tree length, the step accessor reads the step table and normalises by the edge count, and the weighted/unweighted switch selects them that way round")
     rep.rule("R14.2", "parallel formulas: wherever a length and a step count are stored for the same pair (or built for the same descendant path), replacing every edge-length term of the length formula by 1 gives the step formula")
     rep.rule("R14.3", "symmetry: every table the taxon matrix fills pairwise is mirrored by _mirror_lookups, which runs on every path of compile_from_tree / compile_from_dict; in the node matrix every store [a][b] has its mirror [b][a] with the same value in the same block; self-entries are initialised to zero")
+    rep.rule("R14.5", "one option, one default: a same-named option (is_normalize_by_tree_size, is_weighted_edge_distances) has the same default in every method of a distance-matrix class, so what is written to CSV is what the accessors return")
+    rep.rule("R14.6", "a ** keyword dictionary is handed on by unpacking: it never reaches a library callable (csv.writer / csv.reader) as a positional argument, where it would be taken for a dialect and its contents ignored")
     rep.rule("R14.4", "common ancestor: the node recorded as the MRCA of descendants of two different children is the node whose children are being paired; Tree.mrca re-encodes unless told the encoding is current, and treemeasure.patristic_distance forwards that flag and walks both taxa up to the MRCA with the same loop")
 
     classes = {}
@@ -317,6 +319,16 @@ def run(index, rep, tier):
                           "NodeDistanceMatrix.compile_from_tree stores self.%s[%s][%s] = %s without storing the same value under [%s][%s] in the same block: the node matrix is not symmetric" % (f, subs[0], subs[1], norm(a.value)[:60], subs[1], subs[0]))
         rep.floor("R14.3", "pairwise stores in NodeDistanceMatrix.compile_from_tree", 16, nsym)
 
+    # ---- R14.5
+    with rep.section("R14.5"):
+        nopt = sum(option_default_rule(index, rep, "R14.5", cq, ("is_normalize_by_tree_size", "is_weighted_edge_distances")) for cq in (PDM, NDM))
+        rep.floor("R14.5", "methods taking a normalisation / weighting option", 15, nopt)
+
+    # ---- R14.6
+    with rep.section("R14.6"):
+        ncall = kwargs_unpacked_rule(index, rep, "R14.6", [PD.rstrip("."), "dendropy.utility.container"])
+        rep.floor("R14.6", "calls inside functions that take a ** dictionary", 20, ncall)
+
     # ---- R14.4
     with rep.section("R14.4"):
         for q, tab in ((PDM + ".compile_from_tree", "_mrca"), (NDM + ".compile_from_tree", "_mrca")):
@@ -374,6 +386,53 @@ def run(index, rep, tier):
             raise AnalysisError("R14.4: treemeasure.patristic_distance: expected two walk-up loops, found %d" % len(loops))
         a, b = (ast.dump(l) for l in loops)
         rep.check(a == b, "R14.4", pdq.qualname, "the two walk-up loops differ", fn_where(pdq, loops[1]), "both taxa are walked up to the MRCA by the same loop", "treemeasure.patristic_distance walks the two taxa up to their common ancestor with different loops (`%s` / `%s`): one side's edge lengths are accumulated differently" % (norm(loops[0].test), norm(loops[1].test)))
+
+
+def option_default_rule(index, rep, rid, cq, options):
+    ci = index.klass(cq)
+    n = 0
+    for opt in options:
+        defaults = {}
+        for m in ci.methods.values():
+            a = m.node.args
+            pos = a.posonlyargs + a.args
+            dflt = dict(zip([x.arg for x in pos[len(pos) - len(a.defaults):]], a.defaults))
+            dflt.update({k.arg: d for k, d in zip(a.kwonlyargs, a.kw_defaults) if d is not None})
+            if opt in dflt and not m.name.startswith("_"):
+                defaults.setdefault(norm(dflt[opt]), []).append(m)
+        if not defaults:
+            continue
+        major = max(defaults, key=lambda k: len(defaults[k]))
+        for dv, ms in sorted(defaults.items()):
+            for m in ms:
+                n += 1
+                rep.check(dv == major, rid, m.qualname, "default %s=%s differs from the other methods (%s)" % (opt, dv, major), fn_where(m),
+                          "%s.%s: %s defaults to %s like the other %d methods" % (ci.name, m.name, opt, dv, len(defaults[major]) - (1 if dv == major else 0)),
+                          "%s.%s has the default %s=%s while the %d other methods of the class that take the option default to %s: with default arguments it does not deliver the distances the accessors (and nj_tree / upgma_tree) work with - a matrix written by it and read back is a rescaled matrix, so trees reconstructed from it have rescaled edge lengths" % (ci.name, m.name, opt, dv, len(defaults[major]), major))
+    return n
+
+
+def kwargs_unpacked_rule(index, rep, rid, modules):
+    n = 0
+    for mname in modules:
+        for f in index.functions_in_module(mname):
+            if not f.kwarg:
+                continue
+            unpacked = [c for c in calls_in(f.node, nested=True) if any(k.arg is None and isinstance(k.value, ast.Name) and k.value.id == f.kwarg for k in c.keywords)]
+            rep.ob(rid, fn_where(f), "%s: **%s is handed on %s" % (f.qualname, f.kwarg, "by unpacking at %d call(s)" % len(unpacked) if unpacked else "to no callee"), True, nontrivial=bool(unpacked))
+            for c in calls_in(f.node, nested=True):
+                n += 1
+                passed = [a for a in c.args if isinstance(a, ast.Name) and a.id == f.kwarg] + [k.value for k in c.keywords if k.arg is not None and isinstance(k.value, ast.Name) and k.value.id == f.kwarg]
+                if not passed:
+                    continue
+                grade, cands = index.resolve_call(c, f)
+                if grade in ("self", "static") and cands:
+                    continue        # a function of this repository that takes the dictionary as an ordinary argument
+                if isinstance(c.func, ast.Name) and c.func.id in ("dict", "len", "list", "sorted", "bool", "str", "repr", "id", "type", "isinstance"):
+                    continue
+                rep.check(False, rid, f.qualname, "**%s passed as a plain argument: %s" % (f.kwarg, norm(c)[:60]), fn_where(f, c), "",
+                          "%s hands its keyword dictionary `%s` to `%s` as a plain argument instead of unpacking it (**%s): the callee takes it for a different parameter (csv's `dialect`) and silently ignores the options in it - e.g. delimiter=... has no effect, so a tab-separated matrix cannot be written and read back" % (f.qualname, f.kwarg, norm(c.func), f.kwarg))
+    return n
 
 
 def _sym_pair(target, value, var):
